@@ -416,6 +416,24 @@ def compare(op, a, b):
         return None
     if a.signed:
         return None
+    # structural decision: scan from the most significant bit; identical terms cannot decide, the first pair of different constants does
+    ba, bb = a.getbits(), b.getbits()
+    if len(ba) == len(bb):
+        verdict = 0
+        for x, y in zip(reversed(ba), reversed(bb)):
+            if x is TOP or y is TOP:
+                verdict = None
+                break
+            if x == y:
+                continue
+            cx, cy = t_is_const(x), t_is_const(y)
+            if cx is not None and cy is not None:
+                verdict = -1 if cx < cy else 1
+            else:
+                verdict = None
+            break
+        if verdict is not None:
+            return {"Lt": verdict < 0, "Le": verdict <= 0, "Gt": verdict > 0, "Ge": verdict >= 0}[op]
     (alo, ahi), (blo, bhi) = a.rng(), b.rng()
     if op == "Lt":
         if ahi < blo:
